@@ -474,3 +474,136 @@ Proof.
   - pose proof (sl_tail _ _ _ S) as Ht. cbn [last] in Ht. rewrite H2 in Ht. discriminate.
   - cbn [hd] in Hh. inversion Hh as [Hx]. apply (sl_nonnull _ _ _ S). right. left. symmetry. exact Hx.
 Qed.
+
+(* ------------------------------------------------------------------ mov *)
+(* the nodes xs of L are spliced into T behind the node at = last (T :: l1); L itself is left stale *)
+Lemma mov_spec w L xs T l1 l2 :
+  Slist w L xs -> Slist w T (l1 ++ l2) -> xs <> [] ->
+  (forall x, In x (L :: xs) -> ~ In x (T :: l1 ++ l2)) ->
+  exists w', s_mov w L T (last l1 T) = Some w' /\ Slist w' T (l1 ++ xs ++ l2) /\
+    (forall x, x <> last l1 T -> x <> last xs L -> s_rd w' x = s_rd w x) /\
+    (forall l, l <> T -> t_rd w' l = t_rd w l).
+Proof.
+  intros SL ST Hxs D. unfold s_mov. set (pos := last l1 T).
+  rewrite (Slist_next_head w L xs SL).
+  destruct xs as [|x0 xs']; [congruence|]. set (xs := x0 :: xs') in *. cbn [hd].
+  pose proof (sl_nodup _ _ _ SL) as NDL. pose proof (sl_nonnull _ _ _ SL) as NZL.
+  pose proof (sl_nodup _ _ _ ST) as NDT. pose proof (sl_nonnull _ _ _ ST) as NZT.
+  assert (Hx0 : x0 <> 0) by (intros E; apply NZL; right; left; exact E).
+  replace (N.eqb x0 0) with false by (symmetry; apply N.eqb_neq; exact Hx0).
+  pose proof (Slist_next_at w T l1 l2 ST) as Epn. fold pos in Epn. rewrite Epn.
+  set (z := last xs L).
+  assert (Hzin : In z xs) by (unfold z, xs; rewrite last_cons_default; apply in_last_cons).
+  assert (Hpos_in : In pos (T :: l1)) by apply in_last_cons.
+  assert (Hpos_in' : In pos (T :: l1 ++ l2)).
+  { destruct Hpos_in as [H|H]; [left; exact H|right; apply in_or_app; left; exact H]. }
+  assert (Hzpos : z <> pos) by (intros E; apply (D z); [right; exact Hzin|rewrite E; exact Hpos_in']).
+  assert (HLT : L <> T) by (intros E; apply (D L); [left; reflexivity|left; symmetry; exact E]).
+  assert (HtT : t_rd w T <> None) by (rewrite (sl_tail _ _ _ ST); discriminate).
+  assert (Htail : exists w1, (if N.eqb (hd 0 l2) 0 then do t <- t_rd w L; t_wr w T t else Some w) = Some w1 /\
+            (forall x, s_rd w1 x = s_rd w x) /\ (forall l, l <> T -> t_rd w1 l = t_rd w l) /\
+            t_rd w1 T = Some (if N.eqb (hd 0 l2) 0 then z else last (l1 ++ l2) T)).
+  { destruct (N.eqb (hd 0 l2) 0).
+    - rewrite (sl_tail _ _ _ SL). destruct (t_wr_spec w T z HtT) as (w1 & E1 & T1 & O1 & N1). exists w1. auto.
+    - exists w. split; [reflexivity|]. split; [reflexivity|]. split; [reflexivity|]. apply (sl_tail _ _ _ ST). }
+  destruct Htail as (w1 & E1 & N1 & O1 & T1). rewrite E1.
+  rewrite O1 by exact HLT. rewrite (sl_tail _ _ _ SL). fold z. rewrite N1, Epn.
+  assert (Hz1 : s_rd w1 z <> None) by (rewrite N1; apply (Slist_rd w L xs z SL); right; exact Hzin).
+  destruct (s_wr_spec w1 z (hd 0 l2) Hz1) as (w2 & E2 & N2 & O2 & T2). rewrite E2.
+  assert (Hp2 : s_rd w2 pos <> None).
+  { rewrite O2 by (intros E; apply Hzpos; symmetry; exact E). rewrite N1, Epn. discriminate. }
+  destruct (s_wr_spec w2 pos x0 Hp2) as (w3 & E3 & N3 & O3 & T3). rewrite E3.
+  exists w3. split; [reflexivity|].
+  assert (Hold : forall x, x <> pos -> x <> z -> s_rd w3 x = s_rd w x).
+  { intros x H1 H2. rewrite O3, O2, N1; auto. }
+  assert (Hmz : exists p, xs = p ++ [z]).
+  { unfold z, xs. rewrite last_cons_default. destruct (snoc_cases xs') as [->|(m & u & ->)]; [exists []; reflexivity|].
+    exists (x0 :: m). rewrite last_last. reflexivity. }
+  destruct Hmz as (p & Hp).
+  assert (Hmp : exists m, T :: l1 = m ++ [pos]).
+  { unfold pos. destruct (snoc_cases l1) as [->|(m & u & ->)]; [exists []; reflexivity|].
+    exists (T :: m). rewrite last_last. reflexivity. }
+  destruct Hmp as (m & Hm).
+  assert (NDxs : NoDup xs) by (apply NoDup_cons_iff in NDL; tauto).
+  split; [|split; [exact Hold|]].
+  - constructor.
+    + (* no repetition *)
+      change (T :: l1 ++ xs ++ l2) with ((T :: l1) ++ xs ++ l2).
+      change (T :: l1 ++ l2) with ((T :: l1) ++ l2) in NDT.
+      eapply Permutation_NoDup; [apply Permutation_app_swap_app|].
+      assert (G : forall ys, NoDup ys -> (forall y, In y ys -> ~ In y ((T :: l1) ++ l2)) -> NoDup (ys ++ (T :: l1) ++ l2)).
+      { induction ys as [|y ys IH]; intros Ny Dy; [exact NDT|]. cbn [app]. inversion Ny; subst. constructor.
+        - intros H. apply in_app_or in H. destruct H as [H|H]; [contradiction|]. apply (Dy y); [left; reflexivity|exact H].
+        - apply IH; auto. intros y' Hy'. apply Dy. right. exact Hy'. }
+      apply G; auto. intros y Hy. apply D. right. exact Hy.
+    + intros H. change (T :: l1 ++ xs ++ l2) with ((T :: l1) ++ xs ++ l2) in H. apply in_app_or in H.
+      destruct H as [H|H].
+      * apply NZT. change (T :: l1 ++ l2) with ((T :: l1) ++ l2). apply in_or_app. left. exact H.
+      * apply in_app_or in H. destruct H as [H|H]; [apply NZL; right; exact H|].
+        apply NZT. right. apply in_or_app. right. exact H.
+    + (* the chain *)
+      change (T :: l1 ++ xs ++ l2) with ((T :: l1) ++ xs ++ l2). rewrite Hm, <- app_assoc. cbn [app].
+      pose proof (sl_seg _ _ _ ST) as SgT. change (T :: l1 ++ l2) with ((T :: l1) ++ l2) in SgT, NDT.
+      rewrite Hm in SgT, NDT.
+      apply SSeg_app_iff. split.
+      * apply SSeg_app_l in SgT. eapply SSeg_same; [|exact SgT]. intros x Hx. rewrite removelast_last in Hx.
+        apply Hold.
+        -- intros ->. apply NoDup_app_l in NDT. eapply NoDup_app_disj; eauto. left; reflexivity.
+        -- intros ->. apply (D z); [right; exact Hzin|].
+           change (T :: l1 ++ l2) with ((T :: l1) ++ l2). rewrite Hm. apply in_or_app. left. apply in_or_app. left. exact Hx.
+      * apply SSeg_cons.
+        -- unfold xs at 1. cbn [app hd]. exact N3.
+        -- rewrite Hp, <- app_assoc. cbn [app]. apply SSeg_app_iff. split.
+           ++ pose proof (sl_seg _ _ _ SL) as SgL. apply SSeg_tl in SgL. rewrite Hp in SgL.
+              eapply SSeg_same; [|exact SgL]. intros x Hx. rewrite removelast_last in Hx. apply Hold.
+              ** intros ->. apply (D pos); [right; rewrite Hp; apply in_or_app; left; exact Hx|exact Hpos_in'].
+              ** intros ->. rewrite Hp in NDxs. eapply NoDup_app_disj; eauto. left; reflexivity.
+           ++ apply SSeg_cons.
+              ** rewrite O3 by exact Hzpos. exact N2.
+              ** rewrite <- app_assoc in SgT. apply SSeg_app_r in SgT. apply SSeg_tl in SgT.
+                 eapply SSeg_same; [|exact SgT]. intros x Hx. apply in_removelast in Hx. apply Hold.
+                 --- intros ->. rewrite <- app_assoc in NDT. apply (NoDup_app_disj m (pos :: l2) pos).
+                     +++ cbn [app] in NDT. apply NoDup_app_r in NDT. exfalso.
+                         apply NoDup_cons_iff in NDT. apply (proj1 NDT). exact Hx.
+                     +++ exfalso. cbn [app] in NDT. apply NoDup_app_r in NDT. apply NoDup_cons_iff in NDT.
+                         apply (proj1 NDT). exact Hx.
+                     +++ left. reflexivity.
+                 --- intros ->. apply (D z); [right; exact Hzin|]. right. apply in_or_app. right. exact Hx.
+    + (* the end *)
+      destruct l2 as [|b l2].
+      * rewrite app_nil_r, Hp, app_assoc, last_last. rewrite O3 by exact Hzpos. rewrite N2. reflexivity.
+      * rewrite app_assoc, last_app_cons. pose proof (sl_end _ _ _ ST) as En. rewrite last_app_cons in En.
+        rewrite Hold; [exact En| |].
+        -- intros E. change (T :: l1 ++ b :: l2) with ((T :: l1) ++ b :: l2) in NDT.
+           apply (NoDup_app_disj (T :: l1) (b :: l2) pos NDT); [exact Hpos_in|rewrite <- E; apply in_last_cons].
+        -- intros E. apply (D z); [right; exact Hzin|]. right. apply in_or_app. right. rewrite <- E. apply in_last_cons.
+    + rewrite T3, T2, T1. destruct l2 as [|b l2]; cbn [hd].
+      * rewrite app_nil_r, Hp, app_assoc, last_last. reflexivity.
+      * assert (b <> 0) by (intros ->; apply NZT; right; apply in_or_app; right; left; reflexivity).
+        replace (N.eqb b 0) with false by (symmetry; apply N.eqb_neq; assumption).
+        rewrite app_assoc, !last_app_cons. reflexivity.
+  - intros l Hl. rewrite T3, T2. apply O1. exact Hl.
+Qed.
+
+(* moving an empty list changes nothing *)
+Lemma mov_empty_spec w L T pos : Slist w L [] -> s_mov w L T pos = Some w.
+Proof. intros S. unfold s_mov. rewrite (Slist_next_head w L [] S). reflexivity. Qed.
+
+(* what the drivers print: the walk from the head yields exactly the abstract sequence *)
+Lemma s_walk_spec w L pre l fuel :
+  Slist w L (pre ++ l) -> (length l < fuel)%nat -> s_walk w (hd 0 l) fuel = Some l.
+Proof.
+  revert pre fuel. induction l as [|a l IH]; intros pre fuel S Hf.
+  - destruct fuel; [lia|]. reflexivity.
+  - destruct fuel; [simpl in Hf; lia|]. cbn [s_walk hd].
+    assert (Ha0 : a <> 0) by (intros ->; apply (sl_nonnull _ _ _ S); right; apply in_or_app; right; left; reflexivity).
+    replace (N.eqb a 0) with false by (symmetry; apply N.eqb_neq; exact Ha0).
+    replace (pre ++ a :: l) with ((pre ++ [a]) ++ l) in S by (rewrite <- app_assoc; reflexivity).
+    pose proof (Slist_next_at w L (pre ++ [a]) l S) as En. rewrite last_last in En. rewrite En.
+    rewrite (IH (pre ++ [a])); [reflexivity|exact S|simpl in Hf; lia].
+Qed.
+
+Theorem s_list_of_spec w L xs fuel : Slist w L xs -> (length xs < fuel)%nat -> s_list_of w L fuel = Some xs.
+Proof.
+  intros S Hf. unfold s_list_of. rewrite (Slist_next_head w L xs S). apply (s_walk_spec w L [] xs fuel S Hf).
+Qed.
